@@ -30,7 +30,7 @@ def build_reference(tier):
         jobs.append({"kind": "c19ref", "seed": 0, "run": f"ref-{b['id']}",
                      "params": DEFAULT_PARAMS, "steps": [{"op": "bad", "t": b["id"]}],
                      "timeout": 120})
-    res = host.run_jobs(jobs, group_size=3)
+    res = host.run_jobs(jobs)
     ref, full, walls = {}, {}, {}
     for j, r in zip(jobs, res):
         tid = j["steps"][0]["t"]
